@@ -153,6 +153,96 @@ def _job(job) -> List[Dict[str, Any]]:
     return out
 
 
+def _show(frozen) -> str:
+    from ..poly import show
+
+    return show(dict(frozen), 100)
+
+
+def _shift_job(job) -> List[Dict[str, Any]]:
+    """R16.3 location-weight typing: how every value responds to adding one constant to every player's mu
+    (all teams of equal size)."""
+    from ..ai import shift
+
+    idx, op, variant = job
+    prog = Program()
+    roles = prog.roles()[idx]
+    mod = roles.model.module.name
+    entry = f"{roles.model.name}.{op}"
+    line = roles.model.lookup(op).node.lineno
+    out: List[Dict[str, Any]] = []
+    case = variant
+
+    def inst(rule, verdict, construct, message="", detail=None, m=mod, fn=entry, ln=line):
+        out.append(dict(rule=rule, verdict=verdict, module=m, function=fn, construct=construct, line=ln, message=message, detail=dict(detail or {}, entry=entry, case=case)))
+
+    def setup(w):
+        w.I.shift_mode = True
+        w.I.number_locals = True
+
+    kw: Dict[str, Any] = {}
+    if op == "rate":
+        kw = {"tau": "any", "limit_sigma": "any"}
+        if variant != "none":
+            kw[variant] = "list-of-mixed-int-float-bool"
+    else:
+        kw = {"n": (2, 2) if variant == "n=2" else (3, 8)}
+    try:
+        oc = run_op(prog, roles, op, box=Box(shift=True), setup=setup, **kw)
+    except Exception as e:
+        inst("R16.3", "UNDECIDED", case, f"abstract evaluation failed: {type(e).__name__}: {e}")
+        return out
+    if oc.undecided or not oc.returned:
+        inst("R16.3", "UNDECIDED", case, "; ".join(oc.undecided[:3]) or f"{op} does not return")
+        return out
+    I, st = oc.I, oc.world.state
+    n_nodes = 0
+    bad = False
+    for d in I.diags.values():
+        if d["domain"] != "shift":
+            continue
+        n_nodes += 1
+        if not d["ok"]:
+            bad = True
+            f = d["func"]
+            m, _, qn = f.partition("::")
+            inst("R16.3", "VIOLATED", norm_text(d["node"], 90), "; ".join(d["msgs"][:2]) + " — adding one constant to every mu does not leave this term consistent", {}, m, qn, getattr(d["node"], "lineno", 0))
+    want_mu = shift.player_mu_weight()
+    if op == "rate":
+        seen = set()
+        for ev in I.events:
+            if ev.kind == "write" and ev.data["origin"] == "input:player" and ev.data["field"] in ("mu", "sigma") and id(ev.node) not in seen:
+                seen.add(id(ev.node))
+                v = ev.data.get("val")
+                m, fn, ln = where(ev)
+                w = shift.weight_of(I, v) if isinstance(v, Num) else None
+                fld = ev.data["field"]
+                c = f"posterior {fld} under a shift of all mu: {norm_text(ev.node, 60)}"
+                if w is None:
+                    inst("R16.3", "VIOLATED" if bad else "UNDECIDED", c, "no shift response could be inferred for the stored value", {}, m, fn, ln)
+                elif fld == "mu" and w != want_mu:
+                    inst("R16.3", "VIOLATED", c, f"the stored mu moves by ({_show(w[0])}) x d (exponent {_show(w[1])}) when d is added to every mu — not by exactly d", {}, m, fn, ln)
+                elif fld == "sigma" and w != shift.ZERO:
+                    inst("R16.3", "VIOLATED", c, f"the stored sigma changes when a constant is added to every mu (weight {_show(w[0])}, exponent {_show(w[1])})", {}, m, fn, ln)
+                else:
+                    inst("R16.3", "HOLDS", c, "", {"nodes_typed": n_nodes}, m, fn, ln)
+    else:
+        nums: List[Num] = []
+        _result_degs(I, st, oc.result, nums)
+        if not nums:
+            inst("R16.3", "UNDECIDED", f"returned values of {op}", "no number found in the result")
+        for v in nums:
+            w = shift.weight_of(I, v)
+            c = f"returned values of {op} are shift invariant ({case})"
+            if w is None:
+                inst("R16.3", "VIOLATED" if bad else "UNDECIDED", c, "no shift response could be inferred for a returned number")
+            elif w != shift.ZERO:
+                inst("R16.3", "VIOLATED", c, f"a returned number changes when a constant is added to every mu (weight {_show(w[0])}, exponent {_show(w[1])})")
+            else:
+                inst("R16.3", "HOLDS", c, "", {"nodes_typed": n_nodes})
+    return out
+
+
 def run(prog: Program, rep: Report, tier: str = "quick") -> None:
     roles = prog.roles()
     rep.explanation = (
@@ -166,7 +256,8 @@ def run(prog: Program, rep: Report, tier: str = "quick") -> None:
     rep.rule_text = "per model: rate x {ranks, scores, none} x {tau None, tau given} (+ one run with an abstract callback), 3 predictions x {2 teams, 3..8 teams}; one instance per ill-typed node, output and exemption site"
     rep.trust("abstract interpreter osv/ai with the degree domain (DESIGN A.6)")
     rep.assume("the gamma callback returns a dimensionless, shift-invariant number")
-    rep.not_decided = ["size of the rounding differences", "the shift clause (R16.3) if not reported below"]
+    rep.not_decided = ["size of the rounding differences"]
+    rep.assume("shift clause: all teams have the same number of players (the statement's condition): every team size is one symbol TEAMSIZE")
     jobs = []
     for i in range(len(roles)):
         for sel in ("ranks", "scores", "none"):
@@ -185,6 +276,22 @@ def run(prog: Program, rep: Report, tier: str = "quick") -> None:
                 continue
             seen.add(key)
             rep.add(Instance(d["rule"], d["verdict"], d["module"], d["function"], d["construct"], d["line"], d.get("message", ""), d.get("detail", {})))
+    sjobs = []
+    for i in range(len(roles)):
+        for v in ("ranks", "scores", "none"):
+            sjobs.append((i, "rate", v))
+        for op in PUBLIC_OPS:
+            if op != "rate":
+                sjobs.append((i, op, "n=2"))
+                sjobs.append((i, op, "n>=3"))
+    for lst in parallel_map(_shift_job, sjobs):
+        for d in lst:
+            key = (d["rule"], d["verdict"], d["module"], d["function"], d["construct"])
+            if key in seen:
+                continue
+            seen.add(key)
+            rep.add(Instance(d["rule"], d["verdict"], d["module"], d["function"], d["construct"], d["line"], d.get("message", ""), d.get("detail", {})))
     n = len(roles)
     rep.floor("R16.1", 20 * n)
     rep.floor("R16.2", 6)
+    rep.floor("R16.3", 8 * n)
